@@ -673,6 +673,9 @@ def shards(tier, seed):
                 windows = [ALNUM[low:low + 8] for low in range(0, len(ALNUM), 8)]
                 if not thorough:
                     windows = [windows[rng.randrange(len(windows))]]
+                else:
+                    rng.shuffle(windows)
+                    windows = windows[:3]
             for span, window in itertools.product(ranges, windows):
                 par = {'MODEL': key, 'AXIS': axis}
                 label = '%s/%s' % (key, axis)
@@ -701,7 +704,7 @@ def shards(tier, seed):
         rng.shuffle(wheres)
         wheres = wheres[:4]
     for index, where in enumerate(wheres):
-        for window in (windows if thorough else [[48, 90, 97, 122]]):
+        for window in (windows[:2] if thorough else [[48, 90, 97, 122]]):
             for mode in (('renamed', 'renamed_suffix') if thorough else (('renamed', 'renamed_suffix')[index % 2],)):
                 out.append(Shard(MOD, 'block', 'block/%s/%d/%s' % (mode, where, chr(window[0])),
                                  {'MODE': mode, 'WLO': where, 'WHI': where + 1, 'CHARS': window},
